@@ -293,6 +293,12 @@ impl World {
                             bad = Some(format!("pos() = {}, expected {}", walkers[w].pos(), cursors[w]));
                         }
                     }
+                    WOp::Renew => {
+                        walkers[w] = chain.walk();
+                        cursors[w] = 0;
+                        last_dir[w] = 0;
+                        hits.push("op.walker-renew");
+                    }
                     WOp::Len => {
                         if walkers[w].len() != len || walkers[w].is_empty() != (len == 0) {
                             bad = Some(format!("len() = {}, the game has {} moves", walkers[w].len(), len));
